@@ -29,6 +29,7 @@ EXPLANATION = (
     "the four statuses) and R5.8 = C11's R11.4 (each permission rule computes its documented predicate) applied here. R5.1 also: the key the dispatcher looks up is the first path element exactly as sent (bound once, no rewriting); R5.9 every permission condition the "
     "documentation states for an action (docs/source/action_masking.rst) is a validator on the action's static route (four confirmed exceptions frozen); R5.10 no simulator method writes an attribute and "
     "then decides from that same attribute - directly, through a property or a pure helper - to return False with nothing attempted in between and no write-back. R5.11 numeric action parameters for which 0 is a legal value (ACL position, indices) are never tested by truthiness in the action classes. "
+    "R5.12 = C15's R15.10 (name look-ups prefer the live item over a deleted namesake) applied here. "
     "NOT decided: that a handler which is reached changes only what "
     "it should, and status 'success' meaning the operation really succeeded (behavioural)."
 )
@@ -542,6 +543,11 @@ def check(ctx: Ctx) -> None:
     with ctx.borrowed({"R11.4": "R5.8"}):
         c11.r11_4(ctx)
     r5_10(ctx)
+    # "a request naming an existing component is routed to it ... only its own permission rule can refuse it": the folder / file
+    # permission rules find the component through the name look-ups of C15's R15.10
+    from . import c15
+    with ctx.borrowed({"R15.10": "R5.12"}):
+        c15.r15_10(ctx)
     from .common import falsy_numeric
     falsy_numeric(ctx, "R5.11", r"position|index|_id$|_num$", "numeric action parameters (0 is a valid position / index)",
                   scope=("src/primaite/game/agent/actions/", "src/primaite/game/agent/interface.py"))
